@@ -421,6 +421,23 @@ async fn fabitn(
         shared_two_by_two[a][b].clone()
     });
 
+    // verification taps: `abit_x:{k}` changes the bits used in the OT session with peer k only,
+    // `abit_x_full:{k}` also the test bits sent to peer k in Step 3 (a cheater that behaves towards
+    // peer k exactly as if its bit string were different)
+    #[cfg(feature = "__verif")]
+    let (x_ot, x_test): (Vec<Vec<bool>>, Vec<Vec<bool>>) = {
+        let (mut ot, mut test) = (vec![], vec![]);
+        for k in 0..n {
+            let mut full = x.clone();
+            crate::verif::hook(&format!("abit_x_full:{k}"), crate::verif::Hook::Bools(&mut full));
+            let mut xk = full.clone();
+            crate::verif::hook(&format!("abit_x:{k}"), crate::verif::Hook::Bools(&mut xk));
+            ot.push(xk);
+            test.push(full);
+        }
+        (ot, test)
+    };
+
     let ot_futs = shared_rngs.enumerate().map(async |(k, mut rng)| {
         if k == i {
             return Ok((vec![], vec![], rng));
@@ -440,8 +457,7 @@ async fn fabitn(
         // verification taps: a cheater that uses other choice bits or another key towards one peer
         #[cfg(feature = "__verif")]
         let (x, deltas) = {
-            let mut xk = x.clone();
-            crate::verif::hook(&format!("abit_x:{k}"), crate::verif::Hook::Bools(&mut xk));
+            let xk = x_ot[k].clone();
             let mut dk: Vec<u128> = deltas.iter().map(|d| u128::from_be_bytes((*d).into())).collect();
             crate::verif::hook(&format!("abit_delta:{k}"), crate::verif::Hook::U128s(&mut dk));
             let dk: Vec<Block> = dk.into_iter().map(|d| Block::from(d.to_be_bytes())).collect();
@@ -521,6 +537,13 @@ async fn fabitn(
                 let mask = (-(rbit as i128)) as u128;
                 xjmac ^= mac & mask;
             });
+            #[cfg(feature = "__verif")]
+            let xj = &{
+                let _ = xj;
+                let mut xm = false;
+                chunked_update_with_rbits(&x_test[k], rbits, |xi, rbit| xm ^= xi & (rbit != 0));
+                xm
+            };
             xj_xjmac[k].push((*xj, xjmac));
         }
     }
